@@ -116,6 +116,7 @@ def prog_constants(p, j=1, max_hist=4, max_cmds=3, unlocked_bug=False, selfdep_p
     d['MaxCmds'] = str(max_cmds)
     d['UnlockedBug'] = 'TRUE' if unlocked_bug else 'FALSE'
     d['SelfDepPanics'] = 'TRUE' if selfdep_panics else 'FALSE'
+    d['NullStampPanics'] = 'TRUE' if p.get('null_stamp_panics', False) else 'FALSE'
     d['MaxCrash'] = str(p.get('max_crash', max_crash))
     d['CrashWindow'] = 'TRUE' if p.get('crash_window', crash_window) else 'FALSE'
     d['StampWindow'] = 'TRUE' if p.get('stamp_window', False) else 'FALSE'
@@ -780,12 +781,20 @@ def crash_family(window=False, stamp_window=False):
     base = [chain(), stamped(1, 'plain'), outputs('outfile', [('file', 0), ('stdout', 0)], user_t=False), ifcreate_prog(),
             dict(outputs('outdir', [('dirout', 0)], user_t=False), user=[]),
             outputs('outdird', [('dirdirect', 0)], user_t=False)]
+    if stamp_window:
+        # the user writes the checksummed target by hand after a kill that fell between its redo-stamp and the recording
+        # of its first build (a generated record without a stamp, and a file that redo did not make)
+        sh = stamped(1, 'plain')
+        sh['name'] = 'stamphand'
+        sh['user'] = ['mid']
+        base.append(sh)
     for p in base:
         p = dict(p)
+        keep_user = p['name'] == 'stamphand'
         p['name'] = 'crash_' + p['name'] + ('_w' if window else '') + ('_s' if stamp_window else '')
         p['stamp_window'] = stamp_window
         p['cmds'] = [c for c in p['cmds'] if c[0] == 'ifchange'][:1]
-        p['user'] = [x for x in p['user'] if x in ('s', 'x')][:1]
+        p['user'] = p['user'] if keep_user else [x for x in p['user'] if x in ('s', 'x')][:1]
         p['rm'] = []
         p['doedits'] = []
         p['max_crash'] = 1
